@@ -473,6 +473,112 @@ func exitCase(name string) {
 	fmt.Printf("  returned err=%v\n", err)
 }
 
+// ---- family 7: nested commands, odd tokens, the same application run twice (C04, C07, C14, C16, C17, C20 ...) -------------------
+
+func runNested() {
+	argvs := [][]string{{}, {"-h"}, {"remote"}, {"remote", "-h"}, {"remote", "add", "x"}, {"remote", "a", "x", "--", "-y"}, {"r", "rm", "x"}, {"r", "rm"},
+		{"-v", "list", "1", "2"}, {"list", "-p", "08", "1"}, {"list", "-p", "0x1F", "1"}, {"list", "1", "x", "3"}, {"list", "-p", "x", "-p", "3", "7"},
+		{"ls", "1e3"}, {"list", "3000000000"}, {"list", "9223372036854775808"}, {"add", "a,b"}, {"add", ""}, {"add", "a", "--", "--"}, {"add", "--", "a", "--"},
+		{"remote", "add", "-h"}, {"remote", "-h", "add"}, {"-V"}, {"--version"}, {"version"}, {"V"}, {"list", "--version"}, {"Status"}, {"status"},
+		{"-v", "-v", "list", "1"}, {"--ecole", "x", "list", "1"}, {"-é", "x", "list", "1"}, {"list", "--prio=5", "1"}, {"list", "-p=5", "1"}, {"list", "-p5", "1"},
+		{"list", "1", "-p", "5"}, {"bogus"}, {"-x"}, {"remote", "bogus"}, {"list", "50%"}, {"list", "-p", "50%d", "1"}, {"add", "  padded "}, {"add", "-"},
+		{"list", "--", "-1"}, {"list", "-1"}, {"-v", "remote", "add", "x", "y"}, {"remote", "add"}, {"list"}, {"list", "-p"}, {"list", "-p", "-1", "1"},
+		{"add", "x", "-f"}, {"add", "-f", "x"}, {"add", "-f=false", "-f", "x"}, {"add", "--force=false", "--force", "x"}, {"add", "-fq", "x"}, {"add", "-qf", "x"},
+		{"add", "-q", "tRuE", "x"}, {"add", "--force=tRuE", "x"}, {"add", "-o", "-", "x"}, {"add", "--out", "-", "x"}, {"add", "--out", "-x", "x"}, {"add", "-o=", "x"},
+		{"add", "-o==x", "y"}, {"add", "-ofile", "-q", "x"}, {"add", "-q", "-ofile", "x"}, {"add", "--out=v", "--force", "x"}, {"list", "\xe9"}, {"add", "caf\xe9"},
+		{"-v", "add", "x", "add"}, {"add", "list"}, {"remote", "remote"}, {"remote", "add", "add"}, {"list", "1", "--"}, {"list", "--", "1", "--"},
+		{"-t", "a", "-t", "b", "list", "1"}, {"--tag=a", "-tb"}, {"-t", "a", "x"}}
+	for _, argv := range argvs {
+		for _, withRootArg := range []bool{false, true} {
+			argv, withRootArg := argv, withRootArg
+			header("nested rootarg=%v argv=%q (run twice on the same application)", withRootArg, argv)
+			guard(func() string {
+				var log []string
+				step := func(name string) func() { return func() { log = append(log, name) } }
+				app := cli.App("app tool", "the app")
+				app.ErrorHandling = flag.ContinueOnError
+				app.Version("version V", "1.2.3")
+				v := app.BoolOpt("v verbose", false, "be verbose")
+				ecole := app.StringOpt("é ecole", "", "non-ASCII short name")
+				tags := app.StringsOpt("t tag", nil, "tags")
+				var dir *string
+				if withRootArg {
+					dir = app.StringArg("DIR", "", "a directory")
+					app.Spec = "[-v] [--ecole] [-t...] [DIR]"
+					app.Action = step("root.action")
+				}
+				app.Before, app.After = step("root.before"), step("root.after")
+				var ids *[]int
+				var prio *int
+				var items *[]string
+				var force, quiet *bool
+				var out *string
+				app.Command("remote r", "manage remotes", func(c *cli.Cmd) {
+					c.LongDesc = "A longer description of remote"
+					c.Before, c.After = step("remote.before"), step("remote.after")
+					c.Command("add a", "add one", func(a *cli.Cmd) {
+						a.StringsArg("NAMES", nil, "names")
+						a.Spec = "NAMES..."
+						a.Action = step("remote.add.action")
+					})
+					c.Command("rm", "remove one", func(a *cli.Cmd) {
+						a.Hidden = true
+						a.StringArg("NAME", "dflt", "name")
+						a.Action = step("remote.rm.action")
+					})
+				})
+				app.Command("list ls", "list things", func(c *cli.Cmd) {
+					prio = c.IntOpt("p prio", 1, "priority")
+					ids = c.IntsArg("N", nil, "numbers")
+					c.Spec = "[-p] N..."
+					c.Before, c.Action, c.After = step("list.before"), step("list.action"), step("list.after")
+				})
+				app.Command("add", "add items", func(c *cli.Cmd) {
+					force = c.BoolOpt("f force", false, "force")
+					quiet = c.BoolOpt("q", false, "quiet")
+					out = c.StringOpt("o out", "", "output")
+					items = c.StringsArg("ITEM", nil, "items")
+					c.Action = step("add.action")
+				})
+				app.Command("Status", "upper-case name", cli.ActionCommand(step("status.action")))
+				res := ""
+				for round := 1; round <= 2; round++ {
+					log = nil
+					var err error
+					var raised interface{}
+					func() {
+						defer func() { raised = recover() }()
+						av := []string{"app"}
+						for _, a := range argv {
+							av = append(av, strings.Replace(a, "\\xe9", "\xe9", -1))
+						}
+						err = app.Run(av)
+					}()
+					deref := func() string {
+						r := fmt.Sprintf("v=%v ecole=%q tags=%q", *v, *ecole, *tags)
+						if dir != nil {
+							r += fmt.Sprintf(" dir=%q", *dir)
+						}
+						if ids != nil {
+							r += fmt.Sprintf(" ids=%v prio=%d", *ids, *prio)
+						}
+						if items != nil {
+							r += fmt.Sprintf(" items=%q force=%v quiet=%v out=%q", *items, *force, *quiet, *out)
+						}
+						return r
+					}
+					vals := ""
+					if err == nil && raised == nil {
+						vals = deref()
+					}
+					res += fmt.Sprintf("[run %d: log=%v err=%v raised=%v %s] ", round, log, err != nil, raised != nil, vals)
+				}
+				return res
+			})
+		}
+	}
+}
+
 func runExits() {
 	for _, c := range exitCases {
 		header("exit case %s", c)
@@ -506,6 +612,7 @@ func main() {
 	run("flow", runFlow)
 	run("custom", runCustom)
 	run("exits", runExits)
+	run("nested", runNested)
 	run("pipeline", runPipeline)
 	fmt.Printf("#END %d scenarios\n", scenario)
 }
